@@ -221,6 +221,7 @@ impl Property for C05 {
                 note: if long { "long".into() } else { "short".into() },
                 decoy_in_cwd: false,
                 echo_mode,
+                extra: Default::default(),
             },
             plans,
         }
@@ -697,6 +698,7 @@ fn sweep_scenario(mut i: u64) -> Sc {
             note: "sweep".into(),
             decoy_in_cwd: false,
             echo_mode: false,
+            extra: Default::default(),
         },
         plans: vec![vec![], plan, plan2],
     }
